@@ -44,6 +44,11 @@ func (fc *FuncCtx) evalCallInner(call *ast.CallExpr, st *St) []Term {
 				return res
 			}
 		}
+		if key == "frt.SInterP" {
+			if res, ok := fc.sinterpConst(call, st); ok {
+				return res
+			}
+		}
 		if recvExpr != nil {
 			r := fc.eval(recvExpr, st)
 			recv = &r
@@ -76,7 +81,7 @@ func (fc *FuncCtx) evalCallInner(call *ast.CallExpr, st *St) []Term {
 				packed = fc.fresh("va", so)
 				st.assume(Eq(seqLen(packed), IntLit(int64(len(rest)))))
 				for i, el := range rest {
-					st.assume(Eq(seqAt(packed, IntLit(int64(i))), el))
+					st.assume(Eq(seqAt(packed, IntLit(int64(i))), fc.coerceSort(el, so.Elem)))
 				}
 			}
 			args = append(append([]Term(nil), fixed...), packed)
@@ -334,7 +339,7 @@ func (fc *FuncCtx) evalAppendSeq(call *ast.CallExpr, s Term, st *St) Term {
 
 // runGhostAts executes ghost statements anchored at the k-th syntactic call of a callee.
 func (fc *FuncCtx) runGhostAts(call *ast.CallExpr, before bool, st *St, results []Term) {
-	if fc.inlineDep > 0 || st.dead {
+	if st.dead {
 		return
 	}
 	name, ok := fc.callName[call]
@@ -397,9 +402,17 @@ func (fc *FuncCtx) callNamed(key string, fn *types.Func, args []Term, call *ast.
 	if strings.HasPrefix(key, "ext:") {
 		ref = nil
 	}
+	if key == "frt.SInterP" && call != nil {
+		if res, ok := fc.sinterpConst(call, st); ok {
+			return res
+		}
+	}
 	// recursion / self call must go through the contract
-	if con != nil && !con.Inline {
+	if con != nil && !con.Inline && !(con.InlineCalls && key != fc.Ref.Key && ref != nil) {
 		return fc.callByContract(con, ref, fn, args, call, st)
+	}
+	if con != nil && con.InlineCalls {
+		fc.Deps[con.Key+" (β-reduced at the call site; its contract is proved under C14)"] = true
 	}
 	if ref != nil && ref.Decl.Body != nil {
 		if con == nil && hasLoop(ref.Decl.Body) {
@@ -853,6 +866,39 @@ func (fc *FuncCtx) callByContract(con *Contract, ref *FuncRef, fn *types.Func, a
 			fc.panicAt(s2, pos, "callee "+con.Key+" may panic")
 		}
 	}
+	// a callback parameter of the caller handed to the callee may be called by it: its trace is havocked
+	// (the callee's postcondition says what was called)
+	{
+		var fnames []string
+		for n, a := range env.bound {
+			if a.Fn != nil && a.Fn.Kind == "param" {
+				fnames = append(fnames, n)
+			}
+		}
+		sortStrings(fnames)
+		done := map[string]bool{}
+		for _, n := range fnames {
+			nm := env.bound[n].Fn.Name
+			if done[nm] {
+				continue
+			}
+			done[nm] = true
+			if _, ok := st.trn[nm]; !ok {
+				st.trn[nm] = fc.entryTrn(nm)
+				st.tra[nm] = fc.entryTra(env.bound[n].Fn)
+			}
+			pre.trn[nm] = st.trn[nm]
+			pre.tra[nm] = st.tra[nm]
+			nt := fc.fresh("trn", SInt)
+			st.assume(Le(st.trn[nm], nt))
+			st.trn[nm] = nt
+			var na []Term
+			for _, t := range st.tra[nm] {
+				na = append(na, fc.fresh("tra", t.Sort))
+			}
+			st.tra[nm] = na
+		}
+	}
 	// effects
 	for _, m := range con.Modifies {
 		switch {
@@ -878,6 +924,10 @@ func (fc *FuncCtx) callByContract(con *Contract, ref *FuncRef, fn *types.Func, a
 				st.mval[k] = fc.fresh("mval", so)
 			}
 		case m == "bufs":
+			nn := fc.fresh("next", SInt)
+			st.assume(Le(st.next, nn))
+			st.next = nn
+			fc.bufHeap(pre)
 			fc.bufHeap(st)
 			st.bufh = fc.fresh("bufh", st.bufh.Sort)
 		case strings.HasPrefix(m, "glob:"):
